@@ -66,6 +66,7 @@ type C07Plan struct {
 	AacFrag    int             `json:"aac_frag,omitempty"` // RTSP: AAC access units larger than this many payload bytes are fragmented
 	Custom     *C07Custom      `json:"custom,omitempty"`   // Transport == "custom": the customize-pub API
 	Ps         *C07Ps          `json:"ps,omitempty"`       // Transport == "gb_udp" | "gb_tcp": GB28181 PS over RTP
+	BFrames    bool            `json:"b_frames,omitempty"` // RTSP: video is sent in decode order, so presentation (RTP) timestamps step back inside P,B,B groups
 }
 
 // C07Custom: how the customize-pub caller hands frames over.
@@ -220,7 +221,12 @@ func genC07Plan(r *sim.Rng, tier string) C07Plan {
 		}
 	case "opus":
 		astep = 960
-		alen = func() int { return 4 + r.Intn(300) }
+		alen = func() int {
+			if r.Bool(0.12) {
+				return 1 // DTX: a frame that is only its TOC byte
+			}
+			return 4 + r.Intn(300)
+		}
 	case "pcma", "pcmu":
 		astep = 160 * uint64(1+r.Intn(4))
 		alen = func() int { return int(astep) }
@@ -310,6 +316,34 @@ func genC07Plan(r *sim.Rng, tier string) C07Plan {
 				at += astep * uint64(1+r.Intn(20)) // silence gap
 			}
 		}
+	}
+	if p.kind() == "rtsp" && p.Video != "" && r.Bool(0.2) {
+		// B-frames: each run of three consecutive non-key video frames (presentation order t0 < t1 < t2) is sent as
+		// P(t2), B(t0), B(t1)
+		p.BFrames = true
+		var run []int
+		flush := func() {
+			for ; len(run) >= 3; run = run[3:] {
+				a, b, c := run[0], run[1], run[2]
+				p.Frames[a].Ts, p.Frames[b].Ts, p.Frames[c].Ts = p.Frames[c].Ts, p.Frames[a].Ts, p.Frames[b].Ts
+			}
+			run = run[:0]
+		}
+		for i, f := range p.Frames {
+			if f.Track != 0 {
+				continue
+			}
+			key := false
+			for _, n := range f.Nals {
+				key = key || n.T == 5 || (p.Video == "hevc" && n.T >= 16 && n.T <= 21)
+			}
+			if key {
+				flush()
+			} else {
+				run = append(run, i)
+			}
+		}
+		flush()
 	}
 	if longFragVideo {
 		p.Sched.MaxSteps = 900000
@@ -1066,12 +1100,18 @@ func runC07(k *sim.Kernel, p C07Plan) {
 		must[t] = make([]bool, len(src.units[t]))
 		o := 1 - t
 		newestOther := -1.0
-		if len(src.units[o]) > 0 {
-			u := src.units[o][len(src.units[o])-1]
-			newestOther = float64(u.Ts) * 1000 / float64(p.clock(o))
+		for _, u := range src.units[o] {
+			if v := float64(u.Ts) * 1000 / float64(p.clock(o)); v > newestOther {
+				newestOther = v // (with B-frames the last unit sent is not the newest)
+			}
 		}
+		ms := -1.0
 		for i, u := range src.units[t] {
-			ms := float64(u.Ts) * 1000 / float64(p.clock(t))
+			// the tracks are queues: a unit waits behind every earlier unit of its track, so what counts is the newest
+			// timestamp sent so far (with B-frames timestamps step back inside the track)
+			if v := float64(u.Ts) * 1000 / float64(p.clock(t)); v > ms {
+				ms = v
+			}
 			switch kind {
 			case "custom":
 				must[t][i] = true // handed over frame by frame, nothing to wait for
